@@ -517,6 +517,7 @@ class MockCA:
         det["only_existing"] = (pj or {}).get("onlyReturnExisting")
         spki = info["spki_sha"]
         det["spki"] = spki
+        det["thumb"] = info["thumbprint"]
         eab = (pj or {}).get("externalAccountBinding")
         eab_kid = None
         if eab is not None:
@@ -529,6 +530,8 @@ class MockCA:
         if spki in self.by_key:
             i = self.by_key[spki]
             det["acct"] = i
+            det["contacts_after"] = list(self.accounts[i]["contacts"])
+            det["accepted"] = True
             return self._json(200, self._acct_obj(i), {"Location": self.acct_url(i)})
         if (pj or {}).get("onlyReturnExisting"):
             return self._problem("accountDoesNotExist", 400)
@@ -539,6 +542,8 @@ class MockCA:
         self.by_key[spki] = i
         det["created"] = True
         det["acct"] = i
+        det["contacts_after"] = list(self.accounts[i]["contacts"])
+        det["accepted"] = True
         return self._json(201, self._acct_obj(i), {"Location": self.acct_url(i)})
 
     def _check_eab(self, eab, outer_hdr, url):
@@ -581,7 +586,7 @@ class MockCA:
 
     def _do_keyChange(self, v, hdr, pj, obj, fault, ev):
         i = v["acct"]
-        det = {"acct": i, "inner": {}, "done": False}
+        det = {"acct": i, "inner": {}, "done": False, "thumb_before": self.accounts[i]["thumbprint"]}
         ev["detail"] = det
         inn = det["inner"]
         try:
@@ -608,6 +613,7 @@ class MockCA:
             return self._problem("malformed", 400, "key change rejected")
         info = self.vc.call("jwk_info", jwk=ih["jwk"])
         inn["new_spki"] = info["spki_sha"]
+        inn["new_thumb"] = info["thumbprint"]
         inn["new_key_type"] = info["key_type"]
         inn["jwk_problems"] = info["problems"]
         if info["spki_sha"] in self.by_key:
